@@ -105,7 +105,12 @@ def gen_dims(c: Ctx, ndims: int, allow_marker: bool = True):
                     c.bound.append(x)
                 continue
             e, v = ge
-            if rnd.random() < 0.4:
+            if c.bound and rnd.random() < 0.12:
+                # a named alias `x=y` of a bound name (a one-token expression under a name)
+                y = rnd.choice(c.bound)
+                if c.rho.get(y) is not None:
+                    e, v = ("var", y), c.rho[y]
+            if rnd.random() < 0.4 or e[0] == "var":
                 fresh = [x for x in ["m", "out", "q"] + NAME_POOL if x not in c.rho or (c.rho[x] == v and x not in G.variables(e))]
                 fresh = [x for x in fresh if x not in G.variables(e)]
                 if fresh:
@@ -394,8 +399,8 @@ def rebound_cases(rnd: random.Random, n: int) -> list[dict]:
         rho = {v: rnd.choice([1, 2, 3, 5]) for v in vs}
         e = None
         for _ in range(20):
-            cand = G.gen_level(rnd, 1, rnd.choice([1, 2]), names=vs, lits=[0, 1, 2, 3])
-            if cand[0] in ("lit", "var") or not G.variables(cand):
+            cand = G.gen_level(rnd, 1, rnd.choice([1, 2]), names=vs, lits=[0, 1, 2, 3]) if rnd.random() > 0.2 else ("var", rnd.choice(vs))
+            if cand[0] == "lit" or not G.variables(cand):
                 continue
             try:
                 val = G.den(cand, rho)
